@@ -30,6 +30,13 @@ theorem vec_facts : ∀ t ∈ List.range 101, (isF32F64 t || isVec t) = true →
     ∧ (slotSize t = 8 ∨ slotSize t = 16 ∨ slotSize t = 32 ∨ slotSize t = 64)
     ∧ (isFloat t = isF32F64 t) ∧ (isVec t = !isF32F64 t) := by decide +kernel
 
+/-- facts about the types the psABI classes SSE: float, double, vectors and `__m64` -/
+theorem sse_facts : ∀ t ∈ List.range 101, (isF32F64 t || isVec t || isMmx t) = true →
+    vecTypeIdToRegType t = xmmView t ∧ isInt t = false ∧ t ≠ tFloat80
+    ∧ (isFloat t || isVec t || isMmx t) = true ∧ max (tySize t) 8 = slotSize t
+    ∧ (slotSize t = 8 ∨ slotSize t = 16 ∨ slotSize t = 32 ∨ slotSize t = 64)
+    ∧ (isFloat t = isF32F64 t) := by decide +kernel
+
 theorem mask_facts : ∀ t ∈ List.range 101, isMask t = true →
     isInt t = false ∧ isFloat t = false ∧ isVec t = false ∧ isMmx t = false ∧ isF32F64 t = false ∧ t ≠ tFloat80 := by decide +kernel
 
